@@ -360,6 +360,18 @@ def run(write=True):
             old = open(OUT).read()
         except OSError:
             old = None
+        if old != text and REPO != "/repo" and old is not None:
+            # a scratch repository (VERIF_REPO): never rewrite the shared generated file (other
+            # checks may be running on /repo); the theorems of C07Source.v are about the
+            # tables of /repo, so tables that differ are a broken obligation
+            ol, nl = old.split("\n"), text.split("\n")
+            diffs = ["`%s` (GenMaxi.v: `%s`)" % (b.strip(), a.strip())
+                     for a, b in zip(ol, nl) if a != b][:4]
+            if len(ol) != len(nl):
+                diffs.append("%d lines instead of %d" % (len(nl), len(ol)))
+            errors.append("maxi_tables: the tables read from %s differ from coq/maxi/GenMaxi.v, so the theorems of "
+                          "C07Source.v (C07_source_*) do not speak about this source: %s" % (REPO, "; ".join(diffs)))
+            return dict(ok=False, notes=notes, errors=errors)
         if old != text:
             with open(OUT, "w") as f:
                 f.write(text)
